@@ -2,7 +2,7 @@
 """Writes /verif/MANIFEST.json from the table below (kept in one place so it stays valid)."""
 import json, subprocess
 
-HOOK_COMMITS = ["48c2537", "2e3b999", "a02c7c8"]
+HOOK_COMMITS = ["48c2537", "2e3b999", "a02c7c8", "63b8343"]
 
 CHECKS = {
  "C01": dict(level="model_checking", design="DESIGN.md 5 (C01)",
